@@ -3,8 +3,9 @@ import os
 import vlib
 
 PATHS = ["a.proto", "t.proto", "t/x.proto", "p/a.proto", "p-q/a.proto", "d x/c.proto", "d/u-umlaut.proto", "d  e.proto",
-         "LICENSE", "buf.md", "README.md", "README.markdown", "notes.txt", "sub/LICENSE"]
-REAL = {"d/u-umlaut.proto": "d/ü.proto"}
+         " lead.proto", "wide-space.proto", "LICENSE", "buf.md", "README.md", "README.markdown", "notes.txt", "sub/LICENSE"]
+# (a path that starts with a space, and one that starts with U+3000: white space is part of a path)
+REAL = {"d/u-umlaut.proto": "d/ü.proto", "wide-space.proto": "\u3000w.proto"}
 
 
 def run(ctx):
@@ -28,4 +29,4 @@ def run(ctx):
         "path order in the manifest is byte-wise string order, computed from the real path strings and given to TLC as a constant",
         "dependencies are local modules resolved through imports (D, and E through D)",
     ]
-    return vlib.finish(ctx, rule="4 base file sets x dependency present/absent, closed under <=1 (quick) / <=2 (thorough) perturbations (set/remove any of 14 paths incl. spaces, unicode, look-alike directories, doc/license variants, non-module files; rename; retarget; change dependency or transitive dependency content); each state on 5 backends (memory, disk, tar round trip, shuffled walk, prefix-mapped) and both argument orders; distinct = states")
+    return vlib.finish(ctx, rule="4 base file sets x dependency present/absent, closed under <=1 (quick) / <=2 (thorough) perturbations (set/remove any of 16 paths incl. spaces (inner, doubled, leading, U+3000), unicode, look-alike directories, doc/license variants, non-module files; rename; retarget; change dependency or transitive dependency content); each state on 5 backends (memory, disk, tar round trip, shuffled walk, prefix-mapped) and both argument orders; distinct = states")
